@@ -1059,9 +1059,24 @@ class Engine:
                 self.assign(node.target, v, st)
             return [(st, ('next',))]
         if isinstance(node, ast.AugAssign):
+            tgt = node.target
+            if not isinstance(tgt, ast.Name) and any(isinstance(n, (ast.Call, ast.Await, ast.NamedExpr, ast.IfExp, ast.BoolOp)) for n in ast.walk(tgt)):
+                # `x[f()] += v` evaluates f() once; reading and then storing through the target would evaluate it twice
+                if isinstance(tgt, ast.Subscript) and isinstance(tgt.value, ast.Name) and not isinstance(tgt.slice, ast.Slice):
+                    cont = self.ev(tgt.value, st)
+                    idx = self.ev(tgt.slice, st)
+                    cur = self.index(cont, idx, st, tgt)
+                    rhs = self.ev(node.value, st)
+                    v = self.binop(node.op, cur, rhs, st, node)
+                    self._unaliased(tgt.value, cont, st, 'item assignment')
+                    self.assign(tgt.value, self.store(cont, idx, v, st, tgt), st)
+                    return [(st, ('next',))]
+                raise Undecided('L%d: augmented assignment whose target contains a call' % node.lineno)
             cur = self.ev(_load(node.target), st)
             rhs = self.ev(node.value, st)
             v = self.binop(node.op, cur, rhs, st, node)
+            if isinstance(tgt, ast.Name) and isinstance(cur, (SList, tuple)):
+                self._unaliased(tgt, cur, st, 'in-place +=')
             self.assign(node.target, v, st)
             return [(st, ('next',))]
         if isinstance(node, ast.Return):
@@ -1155,6 +1170,7 @@ class Engine:
         if isinstance(t, ast.Subscript):
             cont = self.ev(t.value, st)
             if isinstance(cont, SMap):
+                self._unaliased(t.value, cont, st, 'del of an item')
                 self.assign(t.value, self.map_remove(cont, self.ev(t.slice, st), st, t), st)
                 return
         raise Undecided('del not supported here: %s' % ast.unparse(t))
@@ -1220,10 +1236,26 @@ class Engine:
         if isinstance(target, ast.Subscript):
             cont = self.ev(target.value, st)
             idx = self.ev(target.slice, st)
+            self._unaliased(target.value, cont, st, 'item assignment')
             newc = self.store(cont, idx, v, st, target)
             self.assign(target.value, newc, st)
             return
         raise Undecided('assignment target %s' % ast.unparse(target))
+
+    def _unaliased(self, target, old, st, what):
+        """containers have value semantics here: changing one through a name while another name refers to the same object would
+        silently not change the other - refused (names bound by ghost code are snapshots by intention and do not count)"""
+        if not isinstance(target, ast.Name) or not isinstance(old, (SList, SMap, SDict, tuple)) or (isinstance(old, tuple) and not old):
+            return
+        ghosts = getattr(self, '_ghost_names', None)
+        if ghosts is None:
+            ghosts = set(self.c.ghost_init)
+            for g in self.c.ghosts:
+                ghosts |= set(_assigned_names(ast.parse(_dedent(g.code)).body))
+            self._ghost_names = ghosts
+        for k_, v_ in st.env.items():
+            if k_ != target.id and v_ is old and k_ not in ghosts and not k_.startswith('__'):
+                raise Undecided('%s of %s while %s refers to the same object (aliasing of containers is not modelled)' % (what, target.id, k_))
 
     def store(self, cont, idx, v, st, node):
         if isinstance(cont, SMap):
@@ -1541,6 +1573,8 @@ class Engine:
             return z3.BoolVal(bool(v))
         if isinstance(v, SList):
             return v.len > 0
+        if isinstance(v, tuple) and v and isinstance(v[0], str) and v[0] == 'range':
+            return self.range_len(v) > 0
         if isinstance(v, tuple):
             return z3.BoolVal(len(v) > 0)
         if isinstance(v, z3.ExprRef):
@@ -1553,11 +1587,16 @@ class Engine:
             if v.sort() == z3.StringSort():
                 return z3.Length(v) > 0
             if v.sort() == U:
-                return self.uf('truthy', ['U'], 'bool')(v)
+                return z3.And(v != z3.Const('const_None', U), self.uf('truthy', ['U'], 'bool')(v))  # None is false
         if isinstance(v, SDict):
             return v.items.len > 0
         if isinstance(v, SMap):
             return v.size > 0
+        if isinstance(v, SRecord) and v.cls == 'dict':
+            keys = [k for k in v.fields if not k.startswith('has_')]
+            if any('has_' + k not in v.fields for k in keys):
+                return z3.BoolVal(True)
+            return z3.Or(*[self.truthy(v.fields['has_' + k]) for k in keys]) if keys else z3.BoolVal(False)  # {} is false
         if isinstance(v, SRecord):
             return z3.BoolVal(True)
         if isinstance(v, SFrac):
@@ -2657,7 +2696,7 @@ class Engine:
 
     def ev_lenient(self, a, st):
         if isinstance(a, ast.Starred):
-            return ('*', None)
+            return ('*', self.ev(a.value, st))  # the unpacked expression is evaluated even if the callee does not look at it
         return self.ev(a, st)
 
     def call_contract(self, cc: Contract, args, kw, st, node):
@@ -2712,7 +2751,16 @@ class Engine:
         return z3.ForAll(vars_, body) if kind == 'forall' else z3.Exists(vars_, body)
 
     def call_builtin(self, name, node, st):
-        args = [self.ev_lenient(a, st) for a in node.args]
+        args = []
+        for a_ in node.args:
+            v_ = self.ev_lenient(a_, st)
+            if isinstance(a_, ast.Starred) and isinstance(v_[1], tuple) and not (v_[1] and isinstance(v_[1][0], str)):
+                args.extend(v_[1])  # f(*(x, y)) with a tuple of known length
+            else:
+                args.append(v_)
+        kws = {k.arg: self.ev(k.value, st) for k in node.keywords}  # evaluated (once) whether or not the model below uses them
+        if kws and name in ('len', 'abs', 'divmod', 'int', 'float', 'round', 'bool', 'range', 'enumerate', 'set', 'frozenset', 'sorted', 'cast', 'typing.cast', 'str', 'math.ceil', 'math.floor', 'list', 'tuple'):
+            raise Undecided('keyword arguments of %s() are not modelled' % name)
         if any(isinstance(a, tuple) and a and isinstance(a[0], str) and a[0] == '*' for a in args):
             # f(*xs): only an unmodelled callee tolerates an unexpanded argument list (its result is havocked anyway)
             self.unmodelled.append(name)
@@ -2725,6 +2773,10 @@ class Engine:
                 return v.items.len
             if isinstance(v, SList):
                 return v.len
+            if isinstance(v, tuple) and v and isinstance(v[0], str) and v[0] == 'range':
+                return self.range_len(v)
+            if isinstance(v, tuple) and v and isinstance(v[0], str) and v[0] in ('boundmethod', 'lambda', 'localdef', 'mapvalues', 'mapkeys', '*'):
+                raise Undecided('len of %s' % v[0])
             if isinstance(v, tuple):
                 return len(v)
             if isinstance(v, (str, bytes)):
@@ -2745,7 +2797,6 @@ class Engine:
             srt = sort_of(m.vt if which == 'mapvalues' else m.kt)
             if srt != z3.IntSort():
                 raise Undecided('%s over non-integer map %s' % (name, which))
-            kws = {k.arg: self.ev(k.value, st) for k in node.keywords}
             r = z3.Int(fresh_name(name + '_of_map'))
             k1, k2 = z3.Const(fresh_name('mm_k'), sort_of(m.kt)), z3.Const(fresh_name('mm_j'), sort_of(m.kt))
             elem = (lambda k: z3.Select(m.val, k)) if which == 'mapvalues' else (lambda k: k)
@@ -2758,9 +2809,15 @@ class Engine:
                 st.assume(nonempty)
             return r
         if name in ('min', 'max'):
+            if set(kws) - {'default'}:
+                raise Undecided('%s() with key=' % name)
+            if len(args) == 1 and isinstance(args[0], SList):
+                raise Undecided('%s() of a list' % name)
             if len(args) == 1 and isinstance(args[0], tuple):
                 args = list(args[0])
                 if not args:
+                    if 'default' in kws:
+                        return kws['default']
                     raise PyRaise(SExc('ValueError'))
             r = self.num(args[0])
             for x in args[1:]:
@@ -2862,6 +2919,8 @@ class Engine:
     def call_method(self, recv, meth, node, st):
         args = [self.ev(a, st) for a in node.args]
         target = node.func.value
+        if meth in MUTATORS:
+            self._unaliased(target, recv, st, '.%s()' % meth)
         if isinstance(recv, SMap) and meth in ('issubset', 'issuperset') and len(args) == 1 and isinstance(args[0], SMap):
             a_, b_ = (recv, args[0]) if meth == 'issubset' else (args[0], recv)
             q = z3.Const(fresh_name('sub_k'), sort_of(recv.kt))
